@@ -687,6 +687,9 @@ def gc_eager(sim, graph, props, restriction, scenario, param_dict):
                 TestSwarm.run_swarms.setdefault(w.swarm_id, TestSwarm(w.swarm_id, [])).workers.append(w)
     if "C16" in props:
         sim.graph_violations += graphcheck.check_index(graph, "eager-parse", _picker(sim, "eager"), n_queries=16)
+    if "C07" in props:
+        from travsim import resolver
+        sim.graph_violations += resolver.check_dependencies(graph, resolver.suite_path_of(scenario), "eager-parse")
 
 
 def gc_final(sim, graph, props, restriction, scenario, param_dict, shadow):
@@ -710,6 +713,9 @@ def gc_final(sim, graph, props, restriction, scenario, param_dict, shadow):
             if eager is not None:
                 sim.graph_violations += graphcheck.compare_lazy_eager(graph, eager, "lazy-vs-eager")
                 sim.graph_probes["lazy-eager-compared"] = sim.graph_probes.get("lazy-eager-compared", 0) + 1
+    if "C07" in props and lazy:
+        from travsim import resolver
+        sim.graph_violations += resolver.check_dependencies(graph, resolver.suite_path_of(scenario), "end-of-run")
     if "C16" in props:
         sim.graph_violations += graphcheck.check_index(graph, "end-of-run", _picker(sim, "final"), n_queries=24)
         if shadow is not None:
